@@ -55,7 +55,7 @@ func init() {
 
 func (p *c09) ID() string { return "C09" }
 func (p *c09) Rule() string {
-	return "a case is one round: fresh shared SessionAssets (cold flow cache; flows stored at spec 13.0 so that lazy migration runs on first use) + one engine; N goroutines are released from a barrier, each running a seeded script (NewSession on one of the shared flows, marshal, ReadSession, resumes, Inspect, ExtractTemplates/Localizables, ChangeLanguage, template evaluation, ParseQuery + group membership, modifiers on its own contact). Rounds are spread over many short-lived race-detector processes (cold process state) with N in {2..32} and GOMAXPROCS in {1,2,4,8,16}; a jittering per-goroutine lock-free clock injects yields/sleeps at dates.Now() call sites. Non-trivial = a round in which >= 2 goroutines overlapped in time on the same shared flow; distinct = distinct (scenario, N, script seeds)."
+	return "a case is one round: fresh shared SessionAssets (cold flow cache; flows stored at spec 13.0 so that lazy migration runs on first use) + one engine; N goroutines are released from a barrier, each running a seeded script (NewSession on one of the shared flows, marshal, ReadSession, resumes, Inspect, ExtractTemplates/Localizables, ChangeLanguage, template evaluation, ParseQuery + group membership, modifiers on its own contact). Rounds are spread over many short-lived race-detector processes (cold process state) with N in {2..32} and GOMAXPROCS in {1,2,4,8,16}; a jittering per-goroutine lock-free clock injects yields/sleeps at dates.Now() call sites. In 30% of the rounds one flow saves several results under one key with re-spelled (letter case) names and categories, partly those of the result-saving service actions, and the scripts inspect more; before and after every round but a process's first, and across processes, the inspection of a fixed reference flow over fresh assets must be the same. In half of the rounds the after-outage clause follows: shared assets over a source that was failing for a subset of the flows while sessions made their first use, then up to 6 goroutines over the recovered source must each equal their solo transcript. In the first round of every process all scripts, lined up after the session start, try refused resumes (wait_timeout / dial / msg on copies of their session) and call every function and test with boundary arguments (empty, white space, punctuation, zero, null, empty array); later rounds do a share of that. Four directed rounds: same-key results across flows and child flow first used during an outage (in half of the child processes), boundary arguments and refused resumes process-cold (each the only round of extra child processes). Non-trivial = a round in which >= 2 goroutines overlapped in time on the same shared flow; distinct = distinct (scenario, N, script seeds)."
 }
 func (p *c09) Directed() []string           { return nil }
 func (p *c09) NumGenerated(tier string) int { return 0 }
@@ -153,6 +153,7 @@ type c09script struct {
 	lang    string
 	query   string
 	tpl     string
+	bsel    int // eval_boundary: 0 = every boundary call, k > 0 = the calls with index%3 == k-1
 }
 
 func c09Scripts(r *fw.Rand, scen *gen.Scenario, n int) []c09script {
@@ -206,18 +207,29 @@ type c09shared struct {
 	eng   flows.Engine
 	flows []assets.FlowUUID
 	calls []string // the same for every goroutine of a round (and for its solo reference)
+	// the same functions and arities called with boundary values (c09_boundary.go)
+	boundary []string
 }
 
-func c09Shared(scen *gen.Scenario) (*c09shared, error) {
-	source, err := static.NewSource(scen.AssetsJSON())
+func c09Shared(scen *gen.Scenario) (*c09shared, error) { return c09SharedOver(scen, nil) }
+
+// c09SharedOver builds the shared assets over the scenario's static source, or over what wrap makes of it (a source whose
+// flow fetches can be made to fail for a while, c09_outage.go).
+func c09SharedOver(scen *gen.Scenario, wrap func(*static.StaticSource) assets.Source) (*c09shared, error) {
+	static_, err := static.NewSource(scen.AssetsJSON())
 	if err != nil {
 		return nil, err
+	}
+	var source assets.Source = static_
+	if wrap != nil {
+		source = wrap(static_)
 	}
 	sa, err := engine.NewSessionAssets(envs.NewBuilder().Build(), source, nil)
 	if err != nil {
 		return nil, err
 	}
 	sh := &c09shared{sa: sa, eng: drive.NewEngine(scen.Options), calls: gen.CallsOfEveryFunction(fw.NewRand(int64(len(scen.Fingerprint())), "C09calls", 0), 2)}
+	sh.boundary = c09BoundaryCalls(sh.calls)
 	for _, f := range scen.Flows() {
 		sh.flows = append(sh.flows, assets.FlowUUID(f["uuid"].(string)))
 	}
@@ -369,6 +381,25 @@ func runScriptL(sh *c09shared, sc *c09script, g int, lu *lineUp) (transcript []s
 				out, _ := run.EvaluateTemplate(t, func(flows.Event) {})
 				emit("eval_functions", out)
 			}
+		case "eval_boundary":
+			// the same functions and tests, called with boundary values (empty, white space, punctuation, zero, null, empty array)
+			if session == nil || len(session.Runs()) == 0 {
+				break
+			}
+			if run := session.Runs()[0]; len(run.Path()) > 0 {
+				for i, t := range sh.boundary {
+					if sc.bsel > 0 && i%3 != sc.bsel-1 {
+						continue
+					}
+					emit("eval_boundary", c09EvalGuarded(run, t))
+				}
+			}
+		case "resume_rejected":
+			// resumes that the wait (or the state of the session) refuses, each tried on a copy read back from the session's JSON
+			if session == nil {
+				break
+			}
+			c09RejectedResumes(sh, session, emit)
 		case "eval_webhook":
 			if session == nil || len(session.Runs()) == 0 {
 				break
@@ -494,6 +525,13 @@ type c09roundResult struct {
 	Planted      string           `json:"planted,omitempty"`
 	ColdLoad     *coldLoadResult  `json:"cold_load,omitempty"`
 	LinedUp      bool             `json:"lined_up,omitempty"`
+	Directed     string           `json:"directed,omitempty"` // name of the hand-built round (c09_directed.go)
+	SameKey      *sameKeyPlant    `json:"same_key,omitempty"`
+	Outage       *outageResult    `json:"after_outage,omitempty"`
+	// inspection of the fixed reference flow after the round (and before it, when they differ)
+	InspectCanary        string `json:"inspect_canary,omitempty"`
+	InspectCanaryWas     string `json:"inspect_canary_was,omitempty"`
+	InspectCanaryChecked bool   `json:"inspect_canary_checked,omitempty"`
 }
 
 // c09child: vcheck-race c09child <seed> <child-index> <rounds> <maxN> <jitter 0|1> <out.json>
@@ -565,151 +603,221 @@ func c09child(args []string) int {
 		}
 		rr.N = n
 		scripts := c09Scripts(r, scen, n)
+		// same-key results whose category spellings differ (c09_samekey.go); its own stream, so that nothing else of the round moves
+		c09PlantSameKey(fw.NewRand(seed, "C09samekey", child*1000+round), scen, scripts, &rr)
+		// boundary-argument calls and refused resumes (c09_boundary.go), in the first round of the process for everybody
+		c09PlantColdOps(fw.NewRand(seed, "C09coldops", child*1000+round), scripts, round == 0)
 		rr.Fingerprint = scen.Fingerprint() + fmt.Sprint(n)
-
-		// the very first round of a process runs concurrently *first* (cold process state); the solo runs that give the
-		// reference transcripts come afterwards. Later rounds do solo first (cold per-assets state is rebuilt anyway).
-		solo := func() ([]string, bool) {
-			var ds []string
-			for g := 0; g < n; g++ {
-				sh, err := c09Shared(scen)
-				if err != nil {
-					rr.Discarded = "unloadable: " + errClass(err.Error())
-					return nil, false
-				}
-				bindSlot(0, uint64(seed)^uint64(g+1)*0x9E3779B97F4A7C15, false)
-				tr, _, _ := runScript(sh, &scripts[g], g)
-				ds = append(ds, digest(tr))
-			}
-			return ds, true
-		}
-		var soloDigests []string
-		if round > 0 {
-			var ok bool
-			if soloDigests, ok = solo(); !ok {
-				results = append(results, rr)
-				continue
-			}
-		}
-		sh, err := c09Shared(scen)
-		if err != nil {
-			rr.Discarded = "unloadable: " + errClass(err.Error())
+		if !c09RunRound(seed, jitter, &rr, scen, scripts, n, round == 0, round%2 == 0) {
 			results = append(results, rr)
 			continue
 		}
-		before := canary(nil, false)
-		transcripts := make([][]string, n)
-		stamps := make([][]opStamp, n)
-		panics := make([]string, n)
-		var ready, done sync.WaitGroup
-		start := make(chan struct{})
-		ready.Add(n)
-		done.Add(n)
-		var lu *lineUp
-		if round%2 == 0 {
-			lu = &lineUp{n: int32(n), ch: make(chan struct{})}
-			rr.LinedUp = true
-		}
-		for g := 0; g < n; g++ {
-			go func(g int) {
-				defer done.Done()
-				bindSlot(g+1, uint64(seed)^uint64(g+1)*0x9E3779B97F4A7C15, jitter)
-				ready.Done()
-				<-start // barrier: everything after this line is the measured region
-				transcripts[g], stamps[g], panics[g] = runScriptL(sh, &scripts[g], g, lu)
-			}(g)
-		}
-		ready.Wait()
-		close(start)
-		done.Wait()
-		if round == 0 {
-			var ok bool
-			if soloDigests, ok = solo(); !ok {
-				results = append(results, rr)
-				continue
-			}
-		}
-		after := canary(nil, true)
-		// shared assets must still marshal as a freshly built copy does
-		fresh, _ := c09Shared(scen)
-		sharedNow, sharedFresh := canary(sh, false), canary(fresh, false)
-		for k, v := range sharedFresh {
-			if strings.HasPrefix(k, "shared.") && sharedNow[k] != v {
-				rr.CanaryDiffs = append(rr.CanaryDiffs, k)
-			}
-		}
-		for k, v := range before {
-			if after[k] != v {
-				rr.CanaryDiffs = append(rr.CanaryDiffs, k)
-			}
-		}
-		for k, v := range canaryExpected {
-			if after[k] != v {
-				rr.CanaryDiffs = append(rr.CanaryDiffs, k)
-			}
-		}
-		sort.Strings(rr.CanaryDiffs)
-		var all []opStamp
-		for g := 0; g < n; g++ {
-			if panics[g] != "" {
-				rr.Panics = append(rr.Panics, panics[g])
-			}
-			if d := digest(transcripts[g]); d != soloDigests[g] {
-				// find the first differing op output for the witness
-				bindSlot(0, uint64(seed)^uint64(g+1)*0x9E3779B97F4A7C15, false)
-				sh2, _ := c09Shared(scen)
-				soloTr, _, _ := runScript(sh2, &scripts[g], g)
-				first, what := -1, ""
-				for i := 0; i < len(soloTr) && i < len(transcripts[g]); i++ {
-					if soloTr[i] != transcripts[g][i] {
-						first = i
-						tag, _, _ := strings.Cut(soloTr[i], ":")
-						what = tag + stripIndices(firstJSONDiff(strings.SplitN(soloTr[i], ":", 2)[1], strings.SplitN(transcripts[g][i], ":", 2)[1]))
-						break
-					}
-				}
-				if first < 0 {
-					what = "length"
-				}
-				rr.Mismatches = append(rr.Mismatches, map[string]any{"goroutine": g, "first_diff_item": first, "what": what, "ops": scripts[g].ops})
-			}
-			for _, s := range stamps[g] {
-				rr.Ops[s.op]++
-			}
-			all = append(all, stamps[g]...)
-		}
-		sort.Slice(all, func(i, j int) bool { return all[i].at < all[j].at })
-		var order []string
-		firstTouch := map[int]opStamp{}
-		for _, s := range all {
-			order = append(order, fmt.Sprint(s.g))
-			if ft, ok := firstTouch[s.flow]; !ok {
-				firstTouch[s.flow] = s
-			} else if s.g != ft.g && s.at < ft.end {
-				rr.ColdCollide = true
-			}
-		}
-		for i := 0; i < len(all); i++ {
-			for j := i + 1; j < len(all) && all[j].at < all[i].end; j++ {
-				if all[j].g != all[i].g && all[j].flow == all[i].flow {
-					rr.Overlaps++
-				}
-			}
-		}
-		rr.Interleaving = digest(order)
-		if len(rr.Mismatches) > 0 || len(rr.CanaryDiffs) > 0 {
-			rr.Scenario = scen
-			for g := range scripts {
-				rr.Scripts = append(rr.Scripts, map[string]any{"flow": scripts[g].flowIdx, "ops": scripts[g].ops, "trigger": scripts[g].trigger, "resumes": scripts[g].resumes})
-			}
-		}
 		// the cold-load clause (its own assets and one shared counting UUID source; after the session phase of the round)
 		rr.ColdLoad = coldLoad(r.Fork("coldload"), seed, n)
+		// the after-outage clause (c09_outage.go), in half of the rounds: its own assets over a source that was away for a
+		// random non-empty subset of the flows while their first use was made
+		if ro := fw.NewRand(seed, "C09outage", child*1000+round); ro.Chance(0.5) {
+			var down []int
+			for i := range scen.Flows() {
+				if ro.Chance(0.5) {
+					down = append(down, i)
+				}
+			}
+			if down == nil {
+				down = []int{ro.Intn(len(scen.Flows()))}
+			}
+			rr.Outage = c09AfterOutage(seed, jitter, scen, scripts, n, down)
+			if len(rr.Outage.Mismatches) > 0 && rr.Scenario == nil {
+				rr.Scenario = scen
+			}
+		}
 		results = append(results, rr)
+	}
+	// the directed rounds (c09_directed.go), in the children 1, 2 (mod 4)
+	if child >= 1000 {
+		// a child of its own for one process-cold directed round: the concurrent run is the first thing the process does
+		var cold []c09directedRound
+		for _, dr := range c09DirectedRounds() {
+			if dr.cold {
+				cold = append(cold, dr)
+			}
+		}
+		dr := cold[(child-1000)%len(cold)]
+		rr := c09roundResult{Round: 0, Ops: map[string]int{}, Directed: dr.name, N: len(dr.scripts), LinedUp: dr.lined, Fingerprint: "directed:" + dr.name}
+		c09RunRound(seed, jitter, &rr, dr.scen, dr.scripts, len(dr.scripts), true, dr.lined)
+		results = append(results, rr)
+	} else if child%4 == 1 || child%4 == 2 {
+		for i, dr := range c09DirectedRounds() {
+			if dr.cold {
+				continue
+			}
+			rr := c09roundResult{Round: rounds + i, Ops: map[string]int{}, Directed: dr.name, N: len(dr.scripts), LinedUp: dr.lined}
+			rr.Fingerprint = "directed:" + dr.name
+			if c09RunRound(seed, jitter, &rr, dr.scen, dr.scripts, len(dr.scripts), false, dr.lined) && dr.down != nil {
+				rr.Outage = c09AfterOutage(seed, jitter, dr.scen, dr.scripts, len(dr.scripts), dr.down)
+				if len(rr.Outage.Mismatches) > 0 {
+					rr.Scenario = dr.scen
+				}
+			}
+			results = append(results, rr)
+		}
 	}
 	b, _ := json.Marshal(results)
 	os.WriteFile(out, b, 0o644)
 	return 0
+}
+
+// c09RunRound is the session phase of one round (generated or directed): solo references, the concurrent run from a
+// barrier, canaries, comparison. It returns false when the round was discarded (rr.Discarded says why).
+func c09RunRound(seed int64, jitter bool, rr *c09roundResult, scen *gen.Scenario, scripts []c09script, n int, concurrentFirst, lined bool) bool {
+	// the very first round of a process runs concurrently *first* (cold process state); the solo runs that give the
+	// reference transcripts come afterwards. Later rounds do solo first (cold per-assets state is rebuilt anyway).
+	solo := func() ([]string, bool) {
+		var ds []string
+		for g := 0; g < n; g++ {
+			sh, err := c09Shared(scen)
+			if err != nil {
+				rr.Discarded = "unloadable: " + errClass(err.Error())
+				return nil, false
+			}
+			bindSlot(0, uint64(seed)^uint64(g+1)*0x9E3779B97F4A7C15, false)
+			tr, _, _ := runScript(sh, &scripts[g], g)
+			ds = append(ds, digest(tr))
+		}
+		return ds, true
+	}
+	var soloDigests []string
+	if !concurrentFirst {
+		var ok bool
+		if soloDigests, ok = solo(); !ok {
+			return false
+		}
+	}
+	sh, err := c09Shared(scen)
+	if err != nil {
+		rr.Discarded = "unloadable: " + errClass(err.Error())
+		return false
+	}
+	before := canary(nil, false)
+	// what inspecting a fixed reference flow over its own fresh assets gives must not depend on what the process did before.
+	// Not taken before the first concurrent round of a process (it would warm what that round is meant to find cold).
+	inspectBefore := ""
+	if !concurrentFirst {
+		inspectBefore = c09InspectCanary()
+	}
+	transcripts := make([][]string, n)
+	stamps := make([][]opStamp, n)
+	panics := make([]string, n)
+	var ready, done sync.WaitGroup
+	start := make(chan struct{})
+	ready.Add(n)
+	done.Add(n)
+	var lu *lineUp
+	if lined {
+		lu = &lineUp{n: int32(n), ch: make(chan struct{})}
+		rr.LinedUp = true
+	}
+	for g := 0; g < n; g++ {
+		go func(g int) {
+			defer done.Done()
+			bindSlot(g+1, uint64(seed)^uint64(g+1)*0x9E3779B97F4A7C15, jitter)
+			ready.Done()
+			<-start // barrier: everything after this line is the measured region
+			transcripts[g], stamps[g], panics[g] = runScriptL(sh, &scripts[g], g, lu)
+		}(g)
+	}
+	ready.Wait()
+	close(start)
+	done.Wait()
+	if concurrentFirst {
+		var ok bool
+		if soloDigests, ok = solo(); !ok {
+			return false
+		}
+	}
+	after := canary(nil, true)
+	// shared assets must still marshal as a freshly built copy does
+	fresh, _ := c09Shared(scen)
+	sharedNow, sharedFresh := canary(sh, false), canary(fresh, false)
+	for k, v := range sharedFresh {
+		if strings.HasPrefix(k, "shared.") && sharedNow[k] != v {
+			rr.CanaryDiffs = append(rr.CanaryDiffs, k)
+		}
+	}
+	for k, v := range before {
+		if after[k] != v {
+			rr.CanaryDiffs = append(rr.CanaryDiffs, k)
+		}
+	}
+	for k, v := range canaryExpected {
+		if after[k] != v {
+			rr.CanaryDiffs = append(rr.CanaryDiffs, k)
+		}
+	}
+	rr.InspectCanary = c09InspectCanary()
+	if inspectBefore != "" {
+		rr.InspectCanaryChecked = true
+		if rr.InspectCanary != inspectBefore {
+			rr.CanaryDiffs = append(rr.CanaryDiffs, "inspect.reference-flow")
+			rr.InspectCanaryWas = inspectBefore
+		}
+	}
+	sort.Strings(rr.CanaryDiffs)
+	var all []opStamp
+	for g := 0; g < n; g++ {
+		if panics[g] != "" {
+			rr.Panics = append(rr.Panics, panics[g])
+		}
+		if d := digest(transcripts[g]); d != soloDigests[g] {
+			// find the first differing op output for the witness
+			bindSlot(0, uint64(seed)^uint64(g+1)*0x9E3779B97F4A7C15, false)
+			sh2, _ := c09Shared(scen)
+			soloTr, _, _ := runScript(sh2, &scripts[g], g)
+			first, what := -1, ""
+			for i := 0; i < len(soloTr) && i < len(transcripts[g]); i++ {
+				if soloTr[i] != transcripts[g][i] {
+					first = i
+					tag, _, _ := strings.Cut(soloTr[i], ":")
+					what = tag + stripIndices(firstJSONDiff(strings.SplitN(soloTr[i], ":", 2)[1], strings.SplitN(transcripts[g][i], ":", 2)[1]))
+					break
+				}
+			}
+			if first < 0 {
+				what = "length"
+			}
+			rr.Mismatches = append(rr.Mismatches, map[string]any{"goroutine": g, "first_diff_item": first, "what": what, "ops": scripts[g].ops})
+		}
+		for _, s := range stamps[g] {
+			rr.Ops[s.op]++
+		}
+		all = append(all, stamps[g]...)
+	}
+	sort.Slice(all, func(i, j int) bool { return all[i].at < all[j].at })
+	var order []string
+	firstTouch := map[int]opStamp{}
+	for _, s := range all {
+		order = append(order, fmt.Sprint(s.g))
+		if ft, ok := firstTouch[s.flow]; !ok {
+			firstTouch[s.flow] = s
+		} else if s.g != ft.g && s.at < ft.end {
+			rr.ColdCollide = true
+		}
+	}
+	for i := 0; i < len(all); i++ {
+		for j := i + 1; j < len(all) && all[j].at < all[i].end; j++ {
+			if all[j].g != all[i].g && all[j].flow == all[i].flow {
+				rr.Overlaps++
+			}
+		}
+	}
+	rr.Interleaving = digest(order)
+	if len(rr.Mismatches) > 0 || len(rr.CanaryDiffs) > 0 {
+		rr.Scenario = scen
+		for g := range scripts {
+			rr.Scripts = append(rr.Scripts, map[string]any{"flow": scripts[g].flowIdx, "ops": scripts[g].ops, "trigger": scripts[g].trigger, "resumes": scripts[g].resumes})
+		}
+	}
+	return true
 }
 
 // stripForOldSpec removes what a 13.0 definition cannot contain so that the generated flow is valid at 13.0.
@@ -762,6 +870,22 @@ func (p *c09) RunCustom(o *fw.Orchestrator) {
 	for i := 0; i < children; i++ {
 		jobs = append(jobs, job{idx: i, maxN: []int{16, 8, 32, 4, 16, 2}[i%6], procs: []int{16, 4, 8, 2, 1, 16}[i%6], jitter: i%2 == 0})
 	}
+	// one more child per process-cold directed round (thorough: one per GOMAXPROCS value and jitter setting)
+	nCold := 0
+	for _, dr := range c09DirectedRounds() {
+		if dr.cold {
+			nCold++
+		}
+	}
+	coldReps := 1
+	if o.Tier == "thorough" {
+		coldReps = 6
+	}
+	for rep := 0; rep < coldReps; rep++ {
+		for k := 0; k < nCold; k++ {
+			jobs = append(jobs, job{idx: 1000 + rep*nCold + k, maxN: 8, procs: []int{8, 16, 4, 2, 1, 16}[rep%6], jitter: rep%2 == 1})
+		}
+	}
 	par := 4 // race children are heavy and each uses several cores
 	var mu sync.Mutex
 	raceSigs := map[string]int{}
@@ -771,6 +895,10 @@ func (p *c09) RunCustom(o *fw.Orchestrator) {
 	interleavings := map[string]bool{}
 	var nRounds, nGoroutinesMax, overlapRounds, coldCollisions, discarded, panicsSeen, planted, linedUp, coldRounds, coldFlows, coldDistinct, coldReread int
 	var coldDraws int64
+	var directedRounds, sameKeyRounds, sameKeyRecased, sameKeyInspects, inspectCanaryChecked, outageRounds, outageFlowsDown, outageCompared int
+	var outageFailed, outageFailedInSessions int64
+	directedSeen := map[string]bool{}
+	inspectCanaries := map[string]string{} // value -> where first seen
 	panicKinds := map[string]bool{}
 	procsSeen := map[int]bool{}
 	sem := make(chan struct{}, par)
@@ -787,7 +915,11 @@ func (p *c09) RunCustom(o *fw.Orchestrator) {
 			if j.jitter {
 				jit = "1"
 			}
-			cmd := exec.Command(race, "c09child", strconv.FormatInt(o.Seed, 10), strconv.Itoa(j.idx), strconv.Itoa(rounds), strconv.Itoa(j.maxN), jit, out)
+			nr := rounds
+			if j.idx >= 1000 {
+				nr = 0 // a process-cold directed round only
+			}
+			cmd := exec.Command(race, "c09child", strconv.FormatInt(o.Seed, 10), strconv.Itoa(j.idx), strconv.Itoa(nr), strconv.Itoa(j.maxN), jit, out)
 			cmd.Env = append(os.Environ(), "GORACE=halt_on_error=0 log_path="+logp, "GOMAXPROCS="+strconv.Itoa(j.procs))
 			ef, _ := os.Create(filepath.Join(o.WorkDir, fmt.Sprintf("child%04d.stderr", j.idx)))
 			cmd.Stderr, cmd.Stdout = ef, ef
@@ -847,6 +979,35 @@ func (p *c09) RunCustom(o *fw.Orchestrator) {
 				if rr.LinedUp {
 					linedUp++
 				}
+				if rr.Directed != "" {
+					directedRounds++
+					directedSeen[rr.Directed] = true
+				}
+				if sk := rr.SameKey; sk != nil {
+					sameKeyRounds++
+					sameKeyRecased += sk.Recased
+					sameKeyInspects += sk.Inspect
+				}
+				if rr.InspectCanaryChecked {
+					inspectCanaryChecked++
+				}
+				if rr.InspectCanary != "" {
+					if _, ok := inspectCanaries[rr.InspectCanary]; !ok {
+						inspectCanaries[rr.InspectCanary] = fmt.Sprintf("child%d/round%d", j.idx, rr.Round)
+					}
+				}
+				if og := rr.Outage; og != nil && og.Problem == "" {
+					outageRounds++
+					outageFlowsDown += len(og.FlowsDown)
+					outageCompared += og.Compared
+					outageFailed += og.FailedFetches
+					outageFailedInSessions += og.FailedInSessions
+					for _, m := range og.Mismatches {
+						o.Violation(fmt.Sprintf("child%d/round%d", j.idx, rr.Round), j.idx*1000+rr.Round, "C09|after-outage-differs-from-solo|"+fmt.Sprint(m["what"]),
+							fmt.Sprintf("goroutine %v, started over the shared assets after the asset source had recovered from an outage during which other sessions made the first use of flows %v, produced a different transcript than alone over the healthy source: first difference %v", m["goroutine"], og.FlowsDown, m["what"]),
+							map[string]any{"mismatch": m, "after_outage": og, "directed": rr.Directed, "scenario": rr.Scenario})
+					}
+				}
 				if rr.ColdCollide {
 					coldCollisions++
 				}
@@ -893,6 +1054,11 @@ func (p *c09) RunCustom(o *fw.Orchestrator) {
 		}(j)
 	}
 	wg.Wait()
+	if len(inspectCanaries) > 1 {
+		o.Violation("inspect-canary", 0, "global-overwrite|inspect.reference-flow",
+			"inspecting the same reference flow over fresh assets gave different results in different processes / rounds: it depends on what the process did before",
+			map[string]any{"distinct_results": inspectCanaries})
+	}
 	var sigs []string
 	for s, n := range raceSigs {
 		sigs = append(sigs, s)
@@ -910,6 +1076,23 @@ func (p *c09) RunCustom(o *fw.Orchestrator) {
 	o.Sum.Counters["cold_load.uuid_draws"] = coldDraws
 	o.Sum.Counters["cold_load.rounds_with_distinct_flow_objects(observation)"] = int64(coldDistinct)
 	o.Sum.Counters["cold_load.rounds_with_repeated_source_reads(observation)"] = int64(coldReread)
+	o.Sum.Counters["rounds_directed"] = int64(directedRounds)
+	o.Sum.Counters["rounds_with_planted_same_key_results"] = int64(sameKeyRounds)
+	o.Sum.Counters["same_key.respelled_categories"] = int64(sameKeyRecased)
+	o.Sum.Counters["same_key.inspect_ops_added"] = int64(sameKeyInspects)
+	o.Sum.Counters["clause.inspect_canary_before_after_rounds"] = int64(inspectCanaryChecked)
+	o.Sum.Counters["clause.after_outage_rounds"] = int64(outageRounds)
+	o.Sum.Counters["after_outage.flows_away"] = int64(outageFlowsDown)
+	o.Sum.Counters["after_outage.failed_fetches"] = outageFailed
+	o.Sum.Counters["after_outage.failed_fetches_inside_sessions"] = outageFailedInSessions
+	o.Sum.Counters["after_outage.sessions_compared"] = int64(outageCompared)
+	o.Extra["inspect_canary_distinct_results"] = len(inspectCanaries)
+	var dn []string
+	for k := range directedSeen {
+		dn = append(dn, k)
+	}
+	sort.Strings(dn)
+	o.Extra["directed_rounds"] = dn
 	o.Sum.Counters["rounds_with_overlap_on_shared_flow"] = int64(overlapRounds)
 	o.Sum.Counters["cold_first_access_collisions"] = int64(coldCollisions)
 	o.Sum.Counters["race_reports"] = int64(raceReports)
@@ -935,6 +1118,16 @@ func (p *c09) RunCustom(o *fw.Orchestrator) {
 	}
 	if coldCollisions == 0 {
 		o.Inconclusive("no cold first-access collision was observed")
+	}
+	// floors of the directed rounds and the clauses they guarantee
+	if len(directedSeen) < len(c09DirectedRounds()) {
+		o.Inconclusive("not every directed round was run")
+	}
+	if inspectCanaryChecked == 0 {
+		o.Inconclusive("the inspection canary was never compared before/after a round")
+	}
+	if outageFailedInSessions == 0 || outageCompared == 0 {
+		o.Inconclusive("the after-outage clause never had a first use that failed inside a session, or compared no session")
 	}
 }
 
